@@ -140,3 +140,100 @@ for idx, variant in ((0, "none"), (1, "async"), (2, "sync")):
         c.nested_env = nested_env
         c.variant_index = idx
         con.cases.append(c)
+
+
+# ---- _sequential_impl itself: a process WITHOUT a clock has no reset branch ------------------------------------------------
+# `std.sequential(fn)` / `std.sequential()(fn)` without a Clock builds `process(all)` around fn: there is no reset test in it.  A reset
+# or an on_reset action given to such a context would be accepted and silently never run (C04: "whenever the reset ... is active
+# ... registered on_reset actions run") -- it has to be rejected, also when the arguments arrive through the decorator form.
+import inspect as _inspect  # noqa: E402
+
+from cohdl.utility.source_location import SourceLocation as _SL  # noqa: E402
+
+
+def _plain_process():
+    pass
+
+
+def _impl_spec(how, reset, on_reset):
+    def spec(sx, *args, **kwargs):
+        it = sx.it
+        must_reject = reset or on_reset
+        if how == "direct":
+            if must_reject:
+                sx.reject(AssertionError)
+            return C.Pred(lambda res: res is _plain_process and [t[0] for t in it.trace] == ["sequential_context"], "one clockless process is created")
+
+        def holds(res):
+            # decorator form: the returned wrapper receives the function
+            from pyvc.values import PyExc
+
+            try:
+                it.call(res, [_plain_process], {})
+            except PyExc as e:
+                return must_reject and e.cls is AssertionError
+            return (not must_reject) and [t[0] for t in it.trace] == ["sequential_context"]
+
+        return C.Pred(holds, "decorator form: same verdict as the direct call (reset / on_reset are forwarded)")
+
+    return spec
+
+
+con = contract("cohdl.std._context:_sequential_impl", PROPS)
+for how in ("direct", "decorator"):
+    for reset in (False, True):
+        for on_reset in (False, True):
+            shapes = [Built([], (lambda h: lambda env: _plain_process if h == "direct" else None)(how), lambda a: "<trigger>", lambda a: None)]
+            kw = {"wrapped_fn": Built([], lambda env: None, lambda a: "None", lambda a: None)}
+            if reset:
+                kw["reset"] = Built([], lambda env: SObj(_Cond, f_b=True, f_sig="RESET_SIG"), lambda a: "<reset>", lambda a: None)
+            if on_reset:
+                kw["on_reset"] = Built([], lambda env: _on_reset_0, lambda a: "<on_reset>", lambda a: None)
+            c = Case(f"clockless:{how}{',reset' if reset else ''}{',on_reset' if on_reset else ''}", shapes, _impl_spec(how, reset, on_reset), kwargs=kw)
+            c.native = False
+            if reset or on_reset:
+                c.may_reject = AssertionError if how == "direct" else None
+            c.models = MODELS + [
+                (SC._Prefix.__dict__["_parent_prefix"].__func__ if isinstance(SC._Prefix.__dict__["_parent_prefix"], (staticmethod, classmethod)) else SC._Prefix.__dict__["_parent_prefix"], lambda it, *a: None),
+                (SC._prefix_wrapper, lambda it, prefix, fn: fn),
+                (_SL.__dict__["from_function"].__func__ if isinstance(_SL.__dict__["from_function"], (staticmethod, classmethod)) else _SL.__dict__["from_function"], lambda it, *a: "LOCATION"),
+                (INTR.sequential_context if hasattr(INTR, "sequential_context") else cohdl.sequential_context, lambda it, *a, **k: it.trace.append(("sequential_context", a, sorted(k)))),
+                (_inspect.iscoroutinefunction, lambda it, f: False),
+                (_inspect.isfunction, lambda it, f: f is _plain_process),
+            ]
+            c.interp_flags = {"class_call_models": {SC._NopContextManager: lambda it, args, kw: SObj(SC._NopContextManager)}}
+
+            def _setup(it, ctx, args, env):
+                it.trace = []
+
+            c.setup = _setup
+            c.custom_replay = "contracts.c04_wrappers.replay_clockless_reset"
+            con.cases.append(c)
+
+_CLOCKLESS_DESIGN = '''
+from cohdl import std, Entity, Port, Bit
+class Clockless(Entity):
+    rst = Port.input(Bit)
+    inp = Port.input(Bit)
+    q = Port.output(Bit, default=False)
+    flag = Port.output(Bit, default=False)
+    def architecture(self):
+        def on_reset():
+            self.flag <<= True
+        @std.sequential(reset=std.Reset(self.rst), on_reset=on_reset)
+        def proc():
+            self.q <<= self.inp
+try:
+    t = std.VhdlCompiler.to_string(Clockless)
+    p = t[t.index("proc: process"):]
+    print("ACCEPTED reset-used", "rst" in p, "on_reset-used", "flag" in p)
+except AssertionError as e:
+    print("REJECTED")
+'''
+
+
+def replay_clockless_reset(payload):
+    from contracts.c06_extra import _run_design
+
+    rc, out = _run_design(_CLOCKLESS_DESIGN)
+    return {"reproduced": "ACCEPTED" in out and "False" in out, "detail": "std.sequential(reset=..., on_reset=...) without a clock: " + out[-120:]}
